@@ -41,9 +41,19 @@ func VerifStart(ctx context.Context, wg *sync.WaitGroup, sourceProcess source.So
 
 	var wg2 sync.WaitGroup
 	wg2.Add(2)
-	go Client.start(ctx, &wg2)
-	go Server.start(ctx, &wg2)
+	// spawned the way the instrumenter spawns goroutines, so that their keys are
+	// structural (child index of the starter) and not their arrival order
+	tc, ts, tw := verifsim.BeforeGo(), verifsim.BeforeGo(), verifsim.BeforeGo()
 	go func() {
+		verifsim.GoStart(tc, "io/dlog/verif_overlay.go/client-logger")
+		Client.start(ctx, &wg2)
+	}()
+	go func() {
+		verifsim.GoStart(ts, "io/dlog/verif_overlay.go/server-logger")
+		Server.start(ctx, &wg2)
+	}()
+	go func() {
+		verifsim.GoStart(tw, "io/dlog/verif_overlay.go/logger-wait")
 		wg2.Wait()
 		wg.Done()
 	}()
